@@ -6,7 +6,8 @@
 (*          entry (lib) and in the element (elt) are resolved to the ONE policy in force, or the configuration  *)
 (*          is rejected;                                                                                        *)
 (*   Cross  Roadm.propagate(spectral_info, degree, from_degree): every channel leaves with                      *)
-(*          min(target + offset, input - path loss), target = egress degree's setting if any, else the node's.  *)
+(*          min(target + offset, input - path loss), target = egress degree's setting if any, else the node's;   *)
+(*          the path loss is the one configured for the frequency range the channel lies in.                    *)
 (* All powers in micro-dB (LineElements).                                                                       *)
 EXTENDS LineElements
 
@@ -20,7 +21,8 @@ CONSTANTS
   Crossings,    \* subset of {"add", "drop", "express"}
   Deltas,       \* set of Int                      input power of a channel relative to its target
   OffsetVecs,   \* set of [Chan -> Int]            per-channel power offsets (delta_pdb_per_channel)
-  MaxLosses     \* set of Int                      path loss (roadm-maxloss) of the crossed internal path
+  MaxLossVecs   \* set of [Chan -> Int]            path loss (roadm-maxloss) of the crossed internal path, PER CHANNEL:
+                \*                                 the loss is configured per frequency range
 
 VARIABLES phase,   \* "cfg" -> "ready" | "rejected";  "ready" -> "out"
           cfg,     \* the configuration and the crossing to perform
@@ -36,10 +38,10 @@ NodePolicy(c) == LET k == CHOOSE x \in InForce(c) : TRUE IN [kind |-> k, v |-> N
 DegSetting(c) == IF c.degKind = "none" THEN [has |-> FALSE, kind |-> "pch", v |-> 0]
                  ELSE [has |-> TRUE, kind |-> c.degKind, v |-> DegV[c.degKind]]
 ChanRec(c, k, pin) == [baudDb |-> ChanType[k].baudDb, slotDb |-> ChanType[k].slotDb, offset |-> c.offset[k],
-                       in |-> pin, maxloss |-> c.maxloss]
+                       in |-> pin, maxloss |-> c.maxloss[k]]
 
 Cfgs == [lib : {l.lib : l \in LoadCases}, elt : {l.elt : l \in LoadCases}, degKind : DegKinds, crossing : Crossings,
-         offset : OffsetVecs, maxloss : MaxLosses, delta : [Chan -> Deltas]]
+         offset : OffsetVecs, maxloss : MaxLossVecs, delta : [Chan -> Deltas]]
 
 \* one initial state per case; rejected configurations are not multiplied by the crossing grid
 Init == /\ phase = "cfg"
@@ -50,7 +52,7 @@ Init == /\ phase = "cfg"
               /\ cfg.degKind = CHOOSE d \in DegKinds : TRUE
               /\ cfg.crossing = CHOOSE x \in Crossings : TRUE
               /\ cfg.offset = CHOOSE o \in OffsetVecs : TRUE
-              /\ cfg.maxloss = CHOOSE m \in MaxLosses : TRUE
+              /\ cfg.maxloss = CHOOSE m \in MaxLossVecs : TRUE
               /\ cfg.delta = CHOOSE d \in [Chan -> Deltas] : TRUE
         /\ pch = [k \in Chan |-> 0]
 
@@ -96,10 +98,11 @@ NeverAmplifies == Crossed => \A k \in 1..N : last.out[k] <= last.in[k]
 NeverAmplifiesStep == [][phase' = "out" => \A k \in Chan : pch'[k] <= pch[k]]_vars
 \* a channel that arrives with enough power leaves exactly at target + offset ...
 EqualisedToTarget == Crossed => \A k \in 1..N :
-                        last.in[k] - cfg.maxloss >= last.tgt[k] + cfg.offset[k] => last.out[k] = last.tgt[k] + cfg.offset[k]
-\* ... one that arrives below it is only attenuated by the path loss (left unequalised, never boosted)
+                        last.in[k] - cfg.maxloss[k] >= last.tgt[k] + cfg.offset[k] => last.out[k] = last.tgt[k] + cfg.offset[k]
+\* ... one that arrives below it is only attenuated by the path loss OF ITS OWN frequency range (left unequalised,
+\* never boosted)
 BelowTargetLossOnly == Crossed => \A k \in 1..N :
-                        last.in[k] - cfg.maxloss < last.tgt[k] + cfg.offset[k] => last.out[k] = last.in[k] - cfg.maxloss
+                        last.in[k] - cfg.maxloss[k] < last.tgt[k] + cfg.offset[k] => last.out[k] = last.in[k] - cfg.maxloss[k]
 \* the target is the egress degree's setting if one exists (of whatever kind), else the node's
 TargetIsDegreeElseNode == Crossed => \A k \in 1..N :
                         last.tgt[k] = IF cfg.degKind # "none"
